@@ -173,6 +173,8 @@ def execute(env, profile, seed, tier, replay=None):
         "samples": run.samples,
         "hash_seed": env.hash_seed,
     }
+    if "obslog" in run.scratch:
+        res["obslog"] = run.scratch["obslog"]
     if err:
         res["harness_error"] = err
     return res
